@@ -87,7 +87,12 @@ def content(text):
         toks = ln.split()
         kw = toks[0].upper()
         base = kw.split('_')[0][:4]
-        if base in KEYWORDS or kw.startswith('+'):
+        if kw.startswith('+'):
+            # '+filename': the include instruction itself is content of the res file (the lines of the include file
+            # are not: they belong to that file)
+            items.append(dict(kind='instr', cls='+include', kw=toks[0], params=toks[1:], toks=toks))
+            continue
+        if base in KEYWORDS:
             if base == 'SFAC':
                 if sfac is None:
                     sfac = dict(kind='sfac', cls='SFAC', entries=[], toks=[])
@@ -321,27 +326,44 @@ def tmpdir():
     return Path(TMP.name)
 
 
-def roundtrip(text):
-    """(written text or None, complete?, error-line keyword)"""
+def roundtrip(text, case=None):
+    """(written text or None, complete?, error-line keyword).
+    case['via']: 'string' (read_string), 'file' (read_file + write to another file), 'inplace' (read_file +
+    write_shelx_file() without a name: back to the file that was read); case['includes']: {file name: lines} written
+    next to the res file for its '+filename' lines (a name without an entry is a missing include file)."""
+    import shutil
     from shelxfile import Shelxfile
+    case = case or {}
+    via = case.get('via', 'string')
     shx = Shelxfile()
-    shx.read_string(text)
-    n = len(text.splitlines())
+    d = tmpdir() / 'rt'
+    shutil.rmtree(d, ignore_errors=True)
+    d.mkdir()
+    p = d / 'out.res'
+    if via == 'string' and not case.get('includes'):
+        shx.read_string(text)
+    else:
+        src = d / 'main.res'
+        src.write_text(text)
+        for name, lines in (case.get('includes') or {}).items():
+            (d / name).write_text('\n'.join(lines) + '\n')
+        shx.read_file(str(src))
+        if via == 'inplace':
+            p = src
+    n = len(getattr(shx, '_reslist', None) or text.splitlines())
     last = getattr(shx, 'error_line_num', n - 1)
     complete = last >= n - 1
     errkw = ''
     if not complete:
         try:
-            errkw = text.splitlines()[last].split()[0].upper()[:4]
-        except IndexError:
+            errkw = str(shx._reslist[last]).split()[0].upper()[:4]
+        except Exception:
             errkw = '?'
-    p = tmpdir() / 'rt.res'
     try:
-        p.unlink()
-    except OSError:
-        pass
-    try:
-        shx.write_shelx_file(str(p))
+        if via == 'inplace':
+            shx.write_shelx_file()
+        else:
+            shx.write_shelx_file(str(p))
         out = p.read_text()
     except Exception as e:  # the writer raised: nothing was written back
         return None, complete, f'{errkw}|write:{type(e).__name__}'
@@ -424,6 +446,65 @@ def flat_same(ta, tb):
 
 # ------------------------------------------------------------------------------------------------
 
+HISTORY = []        # the cases this process has read and written so far (other Shelxfile objects, same interpreter)
+LOCALISED = set()
+
+
+class _Probe:
+    """a context that only collects the signatures of the property comparison (no model, no counters)"""
+    def __init__(self):
+        self.failures, self.extra, self.broken, self.model_ok = [], {}, [], False
+
+    def stream(self, *a): pass
+    def count(self, *a, **k): pass
+
+    def fail(self, signature, what, payload, kind='property'):
+        self.failures.append(signature)
+
+
+def signatures_in_fresh_process(case, before):
+    """the property signatures of `case` when a NEW interpreter first round-trips the files `before` and then the case"""
+    import json
+    import subprocess
+    import sys
+    code = ('import sys, json; sys.path.insert(0, %r); from harness import core; core.import_repo(); '
+            'from harness.props import c01; d = json.load(sys.stdin); p = c01._Probe(); '
+            'c01.evaluate(p, [dict(d["case"], before=d["before"])]); print("SIGS " + json.dumps(p.failures))' % str(core.VERIF))
+    r = subprocess.run([sys.executable, '-c', code], input=json.dumps(dict(case=case, before=before)), text=True,
+                       stdout=subprocess.PIPE, stderr=subprocess.DEVNULL)
+    for ln in r.stdout.splitlines():
+        if ln.startswith('SIGS '):
+            return set(json.loads(ln[5:]))
+    return set()
+
+
+def localise(case, small, sig):
+    """the case to store in the replay file, checked in a fresh interpreter: the minimised file `small` if it still
+    fails there, else the whole file, else the whole file plus the earlier files of this process that are needed
+    (state that survives between objects). Unchecked (whole file) after the sixth signature of a run."""
+    if sig in LOCALISED or len(LOCALISED) >= 6:
+        return case
+    LOCALISED.add(sig)
+    bare = {k: v for k, v in case.items() if k != 'before'}
+    if small is not None and sig in signatures_in_fresh_process(small, []):
+        return small
+    if sig in signatures_in_fresh_process(bare, []):
+        return bare
+    hist = [{k: v for k, v in h.items() if k != 'before'} for h in HISTORY if h is not case]
+    if sig not in signatures_in_fresh_process(bare, hist):
+        return case             # not reproducible from the files alone
+    lo, hi = 0, len(hist)       # smallest prefix that still makes the case fail
+    while hi - lo > 1:
+        mid = (lo + hi) // 2
+        if sig in signatures_in_fresh_process(bare, hist[:mid]):
+            hi = mid
+        else:
+            lo = mid
+    one = hist[hi - 1:hi]
+    before = one if sig in signatures_in_fresh_process(bare, one) else hist[:hi]
+    return dict(bare, before=before, tags=list(case.get('tags', [])) + ['needs-history'])
+
+
 def evaluate(ctx, cases, stream=None):
     for s in ('roundtrip', 'atom', 'sfac', 'fvar', 'unit', 'card', 'default'):
         ctx.stream(s)
@@ -433,7 +514,12 @@ def evaluate(ctx, cases, stream=None):
     for ci, case in enumerate(cases):
         text = '\n'.join(case['lines']) + '\n'
         cin = content(text)
-        out, complete, errkw = roundtrip(text)
+        for b in case.get('before', []):
+            # files that another Shelxfile object of this process read and wrote before: must not matter
+            roundtrip('\n'.join(b['lines']) + '\n', b)
+        out, complete, errkw = roundtrip(text, case)
+        if len(HISTORY) < 3000 and not isinstance(ctx, _Probe):
+            HISTORY.append(case)
         tags = list(case.get('tags', []))
         if out is None:
             ctx.count(['c01', case['lines']], nontrivial=False, tags=['write-raised'])
@@ -455,7 +541,8 @@ def evaluate(ctx, cases, stream=None):
         nontrivial = any(a['cls'] in OVERRIDE_KW + ('UNIT', 'FVAR') or
                          (a['kind'] == 'atom' and (a['afix'][:1] not in ((0.0,), ()) or a['part'][:1] not in ((0.0,), ())))
                          or (a['kind'] == 'sfac' and any(e[0] == 'explicit' for e in a['entries'])) for a in cin)
-        ctx.count(['c01', case['lines']], nontrivial=nontrivial,
+        tags += ['via:' + case.get('via', 'string')] + (['includes:%d' % len(case['includes'])] if case.get('includes') else [])
+        ctx.count(['c01', case['lines'], case.get('via'), case.get('includes')], nontrivial=nontrivial,
                   tags=tags + ['class:' + c for c in classes] + (['wrapped'] if any(l.rstrip().endswith('=') for l in case['lines']) else []),
                   sample=dict(stream='roundtrip', input=case['lines'][:12], written=out.splitlines()[:12]))
         seen = set()
@@ -467,9 +554,14 @@ def evaluate(ctx, cases, stream=None):
                 d = item_diff(a, b)
             if d and d not in seen:
                 seen.add(d)
-                ctx.fail(f'C01|{d[0]}|{d[1]}',
+                sig = f'C01|{d[0]}|{d[1]}'
+                small = dict(case, lines=minimal_lines(case, a))
+                store = case if stream else small      # a replay keeps the case it was given
+                if not isinstance(ctx, _Probe) and sig not in ctx.known and 'before' not in case and not stream:
+                    store = localise(case, small, sig)
+                ctx.fail(sig,
                          f'line class {d[0]}: {d[1]} — input {show(a)!r}, written {("(nothing)" if b is None else show(b))!r}',
-                         dict(case=dict(lines=minimal_lines(case, a)), stream='roundtrip', expected=a['toks'],
+                         dict(case=store, stream='roundtrip', expected=a['toks'],
                               actual=None if b is None else b['toks']))
             # correspondence request
             if b is not None:
@@ -494,7 +586,7 @@ def evaluate(ctx, cases, stream=None):
         bt = b['toks'] if isinstance(b['toks'][0], list) else [b['toks']]
         flat_m = [t for l in mt for t in l]
         flat_b = [t for l in bt for t in l]
-        payload = dict(case=dict(lines=minimal_lines(case, a)), stream=st, expected=r.get('spec'), actual=bt, model=mt)
+        payload = dict(case=dict(case, lines=minimal_lines(case, a)), stream=st, expected=r.get('spec'), actual=bt, model=mt)
         # model = spec is a theorem inside its hypotheses; outside them the class is a recorded finding
         if r.get('spec_ok') is False and r.get('hyp') is True and not ctx.broken:
             ctx.fail(f'C01|{st}|{a["cls"]}|model-differs-from-spec',
@@ -519,6 +611,8 @@ def minimal_lines(case, item):
     target = item['toks'] if not isinstance(item['toks'][0], list) else item['toks'][0]
     hit = False
     lines = case['lines']
+    if case.get('includes') or any(l.startswith('+') for l in lines):
+        return lines
     for i, ln in enumerate(lines):
         t = ln.split()
         if not t:
@@ -730,6 +824,72 @@ def make_file(rng, instr_pool=None, n_instr=None):
     return dict(lines=out, tags=tags)
 
 
+INCLUDABLE = ('DFIX', 'DANG', 'SADI', 'SAME', 'FLAT', 'DELU', 'SIMU', 'RIGU', 'ISOR', 'EADP', 'EXYZ', 'CHIV', 'EQIV', 'OMIT',
+              'TEMP', 'LIST', 'EXTI', 'MOLE', 'REM', 'BOND', 'CONF', 'HTAB', 'RTAB', 'MPLA', 'FREE', 'BIND', 'SIZE', 'ACTA',
+              'WGHT', 'PLAN', 'L.S.', 'CGLS', 'MERG', 'SHEL', 'TWIN', 'BASF', 'SWAT', 'DAMP', 'STIR', 'WPDB', 'FMAP', 'GRID')
+
+
+def add_includes(rng, case, pool):
+    """'+filename' lines with include files on disk next to the res file: flat and nested, in the instruction and in
+    the atom section, whose lines partly REPEAT THE TEXT of lines of the res file (instructions kept as text,
+    instructions that become objects, atoms) and partly are new; also an include file that does not exist.
+    Only what the res file itself states is expected back."""
+    lines = list(case['lines'])
+    # logical lines of the res file that may be repeated in an include file (no wrapped ones, no context/header lines)
+    def plain(i):
+        ln = lines[i]
+        if not ln or ln[0] == ' ' or ln.rstrip().endswith('=') or (i and lines[i - 1].rstrip().endswith('=')):
+            return False
+        return True
+    instr = [lines[i] for i in range(len(lines)) if plain(i) and lines[i].split()[0].upper()[:4] in INCLUDABLE]
+    first_fvar = next((i for i, l in enumerate(lines) if l.upper().startswith('FVAR')), None)
+    hklf = next((i for i, l in enumerate(lines) if l.upper().startswith('HKLF')), None)
+    if first_fvar is None or hklf is None:
+        return case
+    atoms = [lines[i] for i in range(first_fvar + 1, hklf) if plain(i) and lines[i].split()[0].upper()[:4] not in KEYWORDS
+             and len(lines[i].split()) >= 7 and all(num(t) is not None and num(t) <= 4 for t in lines[i].split()[2:5])]
+    unit = next(i for i, l in enumerate(lines) if l.upper().startswith('UNIT'))
+    includes = {}
+
+    def body(with_atoms):
+        out = []
+        for _ in range(rng.randint(1, 5)):
+            r = rng.random()
+            if r < 0.45 and instr:
+                out.append(rng.choice(instr))                      # same text as a line of the res file
+            elif r < 0.6 and atoms and with_atoms:
+                out.append(rng.choice(atoms))                      # same text as an atom of the res file
+            else:
+                f = rng.choice(pool)
+                if f[0] in INCLUDABLE:
+                    out.append(f[2])
+        return out or ['REM empty include']
+
+    spots = []
+    if rng.random() < 0.8:
+        spots.append((rng.randint(unit + 1, first_fvar), False))
+    if rng.random() < 0.5 or not spots:
+        # between two lines of the atom section, but not inside a wrapped line
+        cand = [i for i in range(first_fvar + 1, hklf + 1) if not lines[i - 1].rstrip().endswith('=') and lines[i][:1] != ' ']
+        if cand:
+            spots.append((rng.choice(cand), True))
+    for k, (pos, in_atoms) in enumerate(sorted(spots, reverse=True)):
+        name = f'inc{k}.{rng.choice(["dfx", "ins", "txt"])}'
+        r = rng.random()
+        if r < 0.12:
+            pass                                                    # the include file does not exist
+        else:
+            b = body(in_atoms)
+            if r < 0.45:                                            # nested include
+                inner = f'inner{k}.ins'
+                includes[inner] = body(in_atoms)
+                b.insert(rng.randint(0, len(b)), '+' + inner)
+            includes[name] = b
+        lines.insert(pos, '+' + name)
+    return dict(case, lines=lines, includes=includes, via=rng.choice(['file', 'file', 'inplace']),
+                tags=case.get('tags', []) + ['include-files'])
+
+
 def form_file(rng, kw, form, ln):
     """a small file around one instruction form"""
     base = ['TITL one form', 'CELL 0.71073 10.1 11.2 12.3 90 95.5 90', 'ZERR 4 0.001 0.002 0.003 0 0.01 0', 'LATT -1',
@@ -760,7 +920,9 @@ FIXED_CASES = [
 def run(ctx):
     ctx.rule = ('generated valid files (header, any LATT/SYMM, 1..n SFAC lines plain/explicit, DISP, UNIT, 3..10 '
                 'instruction forms from the full syntax table, 1..99 free variables over several FVAR lines, RESI/PART/AFIX '
-                'blocks with iso/aniso atoms and riding hydrogens, HKLF forms, WGHT + Q-peaks after END, legal wrapping) plus one '
+                'blocks with iso/aniso atoms and riding hydrogens, HKLF forms, WGHT + Q-peaks after END, legal wrapping; read through '
+                'read_string, or read_file from disk (write to another file or in place), with flat/nested/missing +filename include '
+                'files whose lines partly repeat the text of res-file lines) plus one '
                 'file per (keyword, prefix form); distinct by the text; non-trivial = contains an instruction with a printer '
                 'override (SIZE ACTA STIR WGHT SYMM UNIT FVAR), an explicit SFAC entry, or an atom inside PART/AFIX')
     ctx.assumptions = ['parse reached the end of the file (else skipped and counted: C02)',
@@ -790,7 +952,13 @@ def run(ctx):
             fresh = gen.instruction_forms(rng, names)
             okset = {(f[0], f[1]) for f in ok_forms}
             pool = [f for f in fresh if (f[0], f[1]) in okset]
-        batch.append(make_file(rng, instr_pool=pool))
+        c = make_file(rng, instr_pool=pool)
+        r = rng.random()
+        if r < 0.15:
+            c = add_includes(rng, c, pool)
+        elif r < 0.3:
+            c['via'] = rng.choice(['file', 'inplace'])          # the second entry point, without include files
+        batch.append(c)
         if len(batch) >= 200:
             evaluate(ctx, batch)
             batch = []
